@@ -137,6 +137,10 @@ def run(R):
                             okf = True
                     else:
                         why = f'value is {ast.unparse(e)[:60]}'
+        if not st and any(isinstance(x, ast.Attribute) and x.attr == field and isinstance(x.ctx, ast.Store) for x in ast.walk(nc.f.node)):
+            # the field *is* stored, in a form the store table does not read (tuple / starred target, through a list built in a loop)
+            R.defer(f'new_cert: the store to .{field} is in a form that cannot be read (C16.PRV.1 undecided for {field})')
+            continue
         chk('C16.PRV.1', f'{field} <- {param}', okf, st[0][0].ast if st else nc.f.node, f'validity period {field}: {why}')
     sets = [c for (n, c) in calls_in_ctx(nc, attr='set_arg') if ast.unparse(c.func.value) == f'{root}._signer']
     chk('C16.PRV.1', 'signer argument signs', len(sets) == 1 and [ast.unparse(a) for a in sets[0].args] == ['markers', 'signer'],
